@@ -169,6 +169,20 @@ def collect_ns_entities(hs, filters=None):
     return out, dumps
 
 
+def _top_level_const(t):
+    """is the variable itself const (internal linkage at namespace scope)?  `const char*` is a non-const pointer to const."""
+    t = t.strip()
+    base = re.sub(r"<.*>", "<>", t)
+    if "(" in base:              # function pointers / references to arrays: be conservative, only `...) const`-free forms are variables
+        return base.rstrip().endswith("const")
+    if "*" in base:
+        return base.rsplit("*", 1)[1].strip().startswith("const")
+    if base.endswith("&"):
+        return False
+    toks = base.replace("[", " [").split()
+    return "const" in toks
+
+
 def rule_odr(rep, ents):
     rep.rule("C19.odr", "no namespace-scope function, explicit specialisation, out-of-class member or variable with "
                         "external linkage is defined non-inline in a header")
@@ -183,7 +197,7 @@ def rule_odr(rep, ents):
                 continue   # declaration
             if "init" not in n and n.get("storageClass") == "extern":
                 continue
-            internal = anon or n.get("storageClass") == "static" or n.get("constexpr") or t.startswith("const ") or " const" in t.split("(")[0].split("<")[0]
+            internal = anon or n.get("storageClass") == "static" or n.get("constexpr") or _top_level_const(t)
             nvar += 1
             if n.get("inline") or internal:
                 rep.holds("C19.odr", qn, "variable definition", where=d.where(n), nontrivial=False)
@@ -401,9 +415,11 @@ def rule_noexc(rep, hs, filters=None):
                           "innermost enclosing block that both builds share — the error path ends the process")
     tu = _all_headers_tu(hs)
     nsites = 0
-    for filt in (filters or ALL_FILTERS):
+    for filt, ndebug in [(f, nd) for f in (filters or ALL_FILTERS) for nd in (False, True)]:
+        # the error paths must also terminate in a release build: an `assert`-based termination disappears under -DNDEBUG
         de = cj.dump(tu, filt)
-        dn = cj.dump(tu, filt, extra=["-fno-exceptions"])
+        dn = cj.dump(tu, filt, extra=["-fno-exceptions"] + (["-DNDEBUG"] if ndebug else []))
+        mode = "-fno-exceptions -DNDEBUG" if ndebug else "-fno-exceptions"
         # [[noreturn]] functions of the library in the no-exceptions build
         noret = set()
         for n in dn.walk():
@@ -440,7 +456,7 @@ def rule_noexc(rep, hs, filters=None):
                 nsites += 1
                 text = de.text(thr)[:80].replace("\n", " ")
                 if fkey not in funcs_n:
-                    rep.holds("C19.noexc", fname, "throw site", where=de.where(thr), scenario="function absent without exceptions",
+                    rep.holds("C19.noexc", fname, "throw site", where=de.where(thr), scenario="function absent without exceptions (%s)" % mode,
                               detail=text, nontrivial=False)
                     continue
                 shared = [k for k in chain if k in blocks_n]
@@ -449,12 +465,12 @@ def rule_noexc(rep, hs, filters=None):
                     continue
                 if blocks_n[shared[0]]:
                     rep.holds("C19.noexc", fname, "throw site", where=de.where(thr), detail=text,
-                              scenario="innermost shared block contains a noreturn call")
+                              scenario="%s: innermost shared block contains a noreturn call" % mode)
                 else:
-                    rep.violates("C19.noexc", fname, "throw site", where=de.where(thr),
-                                 detail="with exceptions this path executes `%s`; with -fno-exceptions the innermost block shared by both "
+                    rep.violates("C19.noexc", fname, "throw site", where=de.where(thr), scenario=mode,
+                                 detail="with exceptions this path executes `%s`; with %s the innermost block shared by both "
                                         "builds contains no call to a noreturn function, so the error path falls through and execution "
-                                        "continues" % text)
+                                        "continues" % (text, mode))
     rep.unit("throw sites paired between the two configurations: %d" % nsites)
 
 
